@@ -6,7 +6,7 @@
    opening parenthesis": `start_count` has the FUNCTION disjunct; fix: "_tokensupto2 never takes an
    IDENT for a bracket or an end character": the `is_ident` guards).  `start_count_pinned` is the
    accounting of the pinned tree (kept for the refutation witness in UptoFacts).            *)
-From CssV Require Import Base Tokenizer.
+From CssV Require Import Base Tokenizer Gen.UptoGen.
 Open Scope Z_scope.
 
 (* the keyword flags; FDefault = no flag given (ends ';}')                                  *)
@@ -20,24 +20,45 @@ Definition counters := (Z * Z * Z)%type.        (* brace, bracket, parant *)
    the mediaqueryendonly special case of l.389-392 is armed                                  *)
 Record mode := mkMode { ends : str; endtypes : list str; c0 : counters; mq : bool }.
 
+(* the Python keyword of a flag; the table rows come from Gen/UptoGen.v (translate/upto.py reads them off
+   the if/elif ladder of the current source), so `mode_of` is generated data: a changed `ends`, `endtypes`
+   or initial counter changes the term the theorems compute with                                        *)
+Definition flag_name (fl : uptoflag) : str :=
+  match fl with
+  | FDefault => []
+  | FBlockStart => s "blockstartonly" | FBlockEnd => s "blockendonly" | FMediaEnd => s "mediaendonly"
+  | FImportMQEnd => s "importmediaqueryendonly" | FMQEnd => s "mediaqueryendonly" | FSemicolon => s "semicolon"
+  | FPropName => s "propertynameendonly" | FPropValue => s "propertyvalueendonly"
+  | FPropPriority => s "propertypriorityendonly" | FSelAttEnd => s "selectorattendonly"
+  | FFuncEnd => s "funcendonly" | FListSep => s "listseponly"
+  end.
+
+Definition all_flags : list uptoflag :=
+  [FBlockStart; FBlockEnd; FMediaEnd; FImportMQEnd; FMQEnd; FSemicolon; FPropName; FPropValue; FPropPriority;
+   FSelAttEnd; FFuncEnd; FListSep].
+
+Fixpoint assoc_s {A} (x : str) (l : list (str * A)) : option A :=
+  match l with [] => None | (k, v) :: r => if eqs k x then Some v else assoc_s x r end.
+
+Definition mk_mode (row : str * list str * (Z * Z * Z)) (is_mq : bool) : mode :=
+  let '(e, et, c) := row in mkMode e et c is_mq.
+
 Definition mode_of (fl : uptoflag) (start : option tok) : mode :=
   match fl with
-  | FDefault      => mkMode (s ";}") [] (0, 0, 0) false
-  | FBlockStart   => mkMode (s "{") [] (-1, 0, 0) false
-  | FBlockEnd     => mkMode (s "}") [] (1, 0, 0) false
-  | FMediaEnd     => mkMode (s "}") [] (1, 0, 0) false
-  | FImportMQEnd  => mkMode (s ";") [s "STRING"] (0, 0, 0) false
-  | FMQEnd        => mkMode (s "{") [s "STRING"] (-1, 0, 0) true
-  | FSemicolon    => mkMode (s ";") [] (0, 0, 0) false
-  | FPropName     => mkMode (s ":;") [] (0, 0, 0) false
-  | FPropValue    => mkMode (s ";!") [] (0, 0, 0) false
-  | FPropPriority => mkMode (s ";") [] (0, 0, 0) false
-  | FSelAttEnd    => mkMode (s "]") []
-                       (0, match start with
-                           | Some t => if eqs (val t) (s "[") then 1 else 0
-                           | None => 0 end, 0) false                       (* l.341-344 *)
-  | FFuncEnd      => mkMode (s ")") [] (0, 0, 1) false
-  | FListSep      => mkMode (s ",") [] (0, 0, 0) false
+  | FDefault => mk_mode gen_default_mode false
+  | _ =>
+    let n := flag_name fl in
+    match assoc_s n gen_modes with
+    | None => mk_mode gen_default_mode false      (* excluded by UptoFacts.flags_generated *)
+    | Some row =>
+      let md := mk_mode row (eqs n gen_mq_flag) in
+      match assoc_s n gen_selatt, start with                                (* l.341-344 *)
+      | Some (ch, d), Some t =>
+        if eqs (val t) ch then mkMode (ends md) (endtypes md) (let '(br, _, pa) := c0 md in (br, d, pa)) (mq md)
+        else md
+      | _, _ => md
+      end
+    end
   end.
 
 (* Python  `x in y`  for two strings: substring test ('' in y is True)                    *)
@@ -79,6 +100,17 @@ Definition bump (c : counters) (t : tok) : counters :=
   else if eqs v (s "(") || is_function t then (br, bk, pa + 1)
   else if eqs v (s ")") then (br, bk, pa - 1)
   else c.
+
+Definition shift (k : nat) (d : Z) (c : counters) : counters :=
+  let '(br, bk, pa) := c in
+  match k with O => (br + d, bk, pa) | S O => (br, bk + d, pa) | _ => (br, bk, pa + d) end.
+
+(* reading of a generated if/elif chain of bracket tests (Gen/UptoGen.v) *)
+Fixpoint ladder_apply (l : list (str * bool * nat * Z)) (v : str) (isfn : bool) (c : counters) : counters :=
+  match l with
+  | [] => c
+  | (ch, fn, k, d) :: r => if eqs v ch || (fn && isfn) then shift k d c else ladder_apply r v isfn c
+  end.
 
 Definition zero (c : counters) : bool :=
   let '(br, bk, pa) := c in Z.eqb br 0 && Z.eqb bk 0 && Z.eqb pa 0.
@@ -150,10 +182,6 @@ Definition bclass_of (t : tok) : bclass :=
   else if eqs v (s ")") then BClose 2
   else BAtom.
 
-Definition shift (k : nat) (d : Z) (c : counters) : counters :=
-  let '(br, bk, pa) := c in
-  match k with O => (br + d, bk, pa) | S O => (br, bk + d, pa) | _ => (br, bk, pa + d) end.
-
 (* Balanced token soup: atoms, ( B ), [ B ], { B }, FUNCTION B ), closed under concatenation
    (UptoFacts.Balanced_app); EOF tokens never occur.  Right-nested presentation.            *)
 Inductive Balanced : list tok -> Prop :=
@@ -182,6 +210,17 @@ Inductive StmtRun (md : mode) : list tok -> Prop :=
 | SR_block pre o b c k :
     TopFree md pre -> bclass_of o = BOpen k -> bclass_of c = BClose k -> is_eof o = false ->
     is_eof c = false -> Balanced b -> isendtok md c = true -> StmtRun md (pre ++ o :: b ++ [c]).
+
+(* balanced soup in front of the first top-level '{' (modes whose brace counter starts at -1: blockstartonly,
+   mediaqueryendonly): atoms on which the loop does not stop at the initial counters (for mediaqueryendonly: no
+   STRING token at depth 0), and ( ) / [ ] groups; a { } group at depth 0 would be the end                    *)
+Inductive PreBrace (md : mode) : list tok -> Prop :=
+| PB_nil : PreBrace md []
+| PB_atom t x : bclass_of t = BAtom -> is_eof t = false -> stops md (c0 md) t = false ->
+                PreBrace md x -> PreBrace md (t :: x)
+| PB_group o b c x k :
+    bclass_of o = BOpen (S k) -> bclass_of c = BClose (S k) -> is_eof o = false -> is_eof c = false ->
+    Balanced b -> stops md (c0 md) c = false -> PreBrace md x -> PreBrace md (o :: b ++ c :: x).
 
 Definition flag_of_nat (n : nat) : uptoflag :=
   match n with
